@@ -9,6 +9,7 @@ program of the Lean effect language (brackets recognised from the chdir / mkstem
 pairs) and `exec` under the same fault predicts (raised?, restored?)."""
 import contextlib
 import io
+import json
 import logging
 import os
 import shutil
@@ -407,8 +408,85 @@ SHAPES_THOROUGH = SHAPES_QUICK + ["record/ostree_ok", "match_products/base_setti
                                   "record_start/collision", "run/collision_products", "run/base_setting", "run/timeout"]
 
 
+def cli_state_cases():
+    """Every command-line front end, called in-process through its main() with ordinary and with slightly unusual
+    arguments (a link file whose name the default exclude patterns do not cover, no --exclude, a failing command, a
+    missing file): afterwards the working directory, the settings - compared by value, not by identity - and the temp
+    space are what they were."""
+    import copy
+    import in_toto.settings as st
+    from in_toto.models.link import Link
+    from in_toto.models.layout import Layout
+    from in_toto.models.metadata import Metablock, Envelope
+    from harness import cli, cliequiv, world as W
+    res = core.Result()
+    k = W.pool()[0]
+    key = cliequiv.priv_path(k)
+    root = tempfile.mkdtemp(prefix="verif-c15c-")
+    cwd0 = os.getcwd()
+    old_tmp = tempfile.tempdir
+    try:
+        os.makedirs(os.path.join(root, "tmp")); os.makedirs(os.path.join(root, "w", "src"))
+        tempfile.tempdir = os.path.join(root, "tmp")
+        os.chdir(os.path.join(root, "w"))
+        open("src/a.c", "w").write("int a;\n"); open("b.txt", "w").write("b\n")
+        import hashlib
+        prods = {"b.txt": {"sha256": hashlib.sha256(b"b\n").hexdigest()}, "src/a.c": {"sha256": hashlib.sha256(b"int a;\n").hexdigest()}}
+        for name, env in (("build.json", False), ("attestation.dsse", True), ("s.ab12cd34.link", False)):
+            lk = Link(name="s", products=prods)
+            (Envelope.from_signable(lk) if env else Metablock(signed=lk)).dump(os.path.join(root, name))
+        Metablock(signed=Layout(expires="2031-01-01T00:00:00Z")).dump(os.path.join(root, "root.layout"))
+        calls = [("in_toto_match_products", ["--link", os.path.join(root, "build.json")]),
+                 ("in_toto_match_products", ["--link", os.path.join(root, "attestation.dsse"), "--paths", "."]),
+                 ("in_toto_match_products", ["--link", os.path.join(root, "s.ab12cd34.link"), "--exclude", "*.o"]),
+                 ("in_toto_match_products", ["--link", os.path.join(root, "nope.link")]),
+                 ("in_toto_run", ["-n", "st", "--signing-key", key, "-m", ".", "-p", ".", "-d", root, "--", sys.executable, "-c", "print(1)"]),
+                 ("in_toto_run", ["-n", "st", "--signing-key", key, "-m", "src", "--base-path", ".", "-s", "-d", root, "--", sys.executable, "-c", "raise SystemExit(3)"]),
+                 ("in_toto_run", ["-n", "st", "--signing-key", key, "-d", root, "--", "/no/such/command"]),
+                 ("in_toto_record", ["start", "-n", "rec", "--signing-key", key, "-m", "src", "--exclude", "*.txt"]),
+                 ("in_toto_record", ["stop", "-n", "rec", "--signing-key", key, "-p", ".", "-d", root]),
+                 ("in_toto_record", ["stop", "-n", "never-started", "--signing-key", key, "-p", "."]),
+                 ("in_toto_mock", ["-n", "mock", "--", sys.executable, "-c", "print(2)"]),
+                 ("in_toto_sign", ["-f", os.path.join(root, "root.layout"), "-k", key, "-o", os.path.join(root, "signed.layout")]),
+                 ("in_toto_sign", ["-f", os.path.join(root, "signed.layout"), "-k", c18_pub(k, root), "--verify"]),
+                 ("in_toto_verify", ["-l", os.path.join(root, "signed.layout"), "--verification-keys", c18_pub(k, root), "--link-dir", root])]
+        for tool, argv in calls:
+            before = {"cwd": os.getcwd(), "settings": copy.deepcopy({a: getattr(st, a) for a in dir(st) if a.isupper()}),
+                      "temp": sorted(os.listdir(tempfile.gettempdir()))}
+            status = cli.run_main(tool, argv)[0]
+            after = {"cwd": os.getcwd(), "settings": {a: getattr(st, a) for a in dir(st) if a.isupper()},
+                     "temp": sorted(os.listdir(tempfile.gettempdir()))}
+            changed = {a: [before[a], after[a]] for a in ("cwd", "temp") if before[a] != after[a]}
+            changed.update({"settings." + a: [before["settings"][a], after["settings"].get(a)] for a in before["settings"]
+                            if before["settings"][a] != after["settings"].get(a)})
+            case = {"op": "cli_state", "tool": tool, "argv": [x.replace(root, "<root>") for x in argv], "status": status}
+            res.case(case, True, not changed, sample_cap=2)
+            res.count("cli_state_" + tool)
+            if changed:
+                res.fail("oracle", case, {"why": "process state not restored after %s returned" % tool.replace("_", "-"),
+                                          "changed": json.loads(json.dumps(changed, default=repr))})
+                for a, v in before["settings"].items():      # (do not let one finding cascade into the next call)
+                    setattr(st, a, v)
+                os.chdir(before["cwd"])
+            for f in os.listdir("."):
+                if f.endswith((".link", ".link-unfinished")):
+                    os.remove(f)
+    finally:
+        os.chdir(cwd0)
+        tempfile.tempdir = old_tmp
+        shutil.rmtree(root, ignore_errors=True)
+    return res
+
+
+def c18_pub(k, d):
+    from harness.props import c18
+    return c18.write_pub_pem(k, d)
+
+
 def run(tier, seed):
-    return core.parallel(core.call, [(run_shape, (s,)) for s in (SHAPES_QUICK if tier == "quick" else SHAPES_THOROUGH)])
+    shards = [(run_shape, (s,)) for s in (SHAPES_QUICK if tier == "quick" else SHAPES_THOROUGH)]
+    shards.append((cli_state_cases, ()))
+    return core.parallel(core.call, shards)
 
 
 def replay(case):
